@@ -6,6 +6,7 @@ package main
 
 import (
 	"bufio"
+	"sort"
 	"bytes"
 	"crypto/aes"
 	"crypto/cipher"
@@ -118,22 +119,66 @@ func aesOracle(key, src []byte, sector uint64) (oe1, od1, oe2 []byte) {
 	return e1, d1, e2[:min(len(e2), 32)]
 }
 
+// feature tags of the op being generated; every unordered pair is counted as pair.<a>+<b>
+var tags []string
+
+func tag(s string) { tags = append(tags, s) }
+func flushPairs(g *hx.Gen) {
+	sort.Strings(tags)
+	for i := range tags {
+		for j := i + 1; j < len(tags); j++ {
+			if tags[i] != tags[j] {
+				g.Stat("pair." + tags[i] + "+" + tags[j])
+			}
+		}
+	}
+	tags = tags[:0]
+}
+
 var sectors = []uint64{0, 1, 1 << 32, 1 << 63, 1<<64 - 1}
 
 func pickSector(r *hx.Rand) uint64 {
 	if r.Chance(1, 2) {
-		return sectors[r.Intn(len(sectors))]
+		k := r.Intn(len(sectors))
+		tag([]string{"sector.0", "sector.1", "sector.2^32", "sector.2^63", "sector.max"}[k])
+		return sectors[k]
 	}
 	switch r.Intn(3) {
 	case 0:
+		tag("sector.small")
 		return uint64(r.Intn(1 << 20))
 	case 1:
+		tag("sector.high-bit")
 		return r.U64() | 1<<63
 	}
+	tag("sector.random")
 	return r.U64()
 }
 
+func lenTag(n int) {
+	switch {
+	case n == 0:
+		tag("len.0")
+	case n%16 != 0:
+		tag("len.unaligned")
+	case n == 16:
+		tag("len.1block")
+	case n <= 512:
+		tag("len.2-32blocks")
+	case n == 4096:
+		tag("len.4096")
+	default:
+		tag("len.over32blocks")
+	}
+}
+
 func pickLen(g *hx.Gen) int {
+	n := pickLen0(g)
+	lenTag(n)
+	return n
+}
+
+func pickLen0(g *hx.Gen) int {
 	r := g.R
 	switch r.Intn(12) {
 	case 0:
@@ -164,7 +209,16 @@ func gen(g *hx.Gen) {
 		src := r.Bytes(ln)
 		sector := pickSector(r)
 		dstlen := ln
-		switch r.Intn(10) {
+		dcase := r.Intn(10)
+		switch {
+		case dcase == 0:
+			tag("dst.longer")
+		case dcase == 1 && ln > 0:
+			tag("dst.shorter")
+		default:
+			tag("dst.exact")
+		}
+		switch dcase {
 		case 0:
 			dstlen = ln + r.Range(1, 40)
 			g.Stat("dst.longer")
@@ -178,7 +232,16 @@ func gen(g *hx.Gen) {
 			}
 		}
 		off := "sep"
-		switch r.Intn(8) {
+		ocase := r.Intn(8)
+		switch {
+		case ocase <= 1:
+			tag("buf.inplace")
+		case ocase == 2:
+			tag("buf.shifted")
+		default:
+			tag("buf.separate")
+		}
+		switch ocase {
 		case 0, 1:
 			off = "0"
 			g.Stat("inplace")
@@ -198,30 +261,34 @@ func gen(g *hx.Gen) {
 			if r.Chance(1, 10) {
 				kl = r.PickInt(0, 16, 31, 33, 40, 63, 65)
 				g.Stat("aes.badkey")
+				tag("key.rejected")
 			}
-			if ln > 1024 {
-				ln = 1024
-				src = src[:ln]
-				if dstlen > ln {
-					dstlen = ln
-				}
-			}
+			tag("ciph.aes")
 			key := r.Bytes(kl)
 			e1, d1, e2 := aesOracle(key, src, sector)
 			g.Stat("ciph.aes")
+			flushPairs(g)
 			g.Emit("xts ciph=aes key=%s sector=%d src=%s dstlen=%d off=%s oe1=%s od1=%s oe2=%s", hx.Hex(key), sector, hx.Hex(src), dstlen, off, hx.Hex(e1), hx.Hex(d1), hx.Hex(e2))
 			continue
 		}
 		if r.Chance(1, 40) {
 			g.Stat("ciph.toy8")
-			g.Emit("xts ciph=toy8 key=%s sector=%d src=%s dstlen=%d off=%s", hx.Hex(r.Bytes(r.PickInt(32, 32, 16, 31))), sector, hx.Hex(src), dstlen, off)
+			tag("ciph.toy8-blocksize8")
+			k8 := r.PickInt(32, 32, 16, 31)
+			if k8 != 32 {
+				tag("key.rejected")
+			}
+			flushPairs(g)
+			g.Emit("xts ciph=toy8 key=%s sector=%d src=%s dstlen=%d off=%s", hx.Hex(r.Bytes(k8)), sector, hx.Hex(src), dstlen, off)
 			continue
 		}
 		kl := 32
 		if r.Chance(1, 15) {
 			kl = r.PickInt(0, 1, 16, 30, 31, 33, 34, 64)
 			g.Stat("toy.badkey")
+			tag("key.rejected")
 		}
+		tag("ciph.toy")
 		key := r.Bytes(kl)
 		if kl == 32 && r.Chance(1, 2) {
 			// force the initial tweak: high bytes all ones (long runs of carries out of bit 127),
@@ -237,17 +304,45 @@ func gen(g *hx.Gen) {
 					target[j] = 0xff
 				}
 				g.Stat("tweak.all-ones")
+				tag("tweak.all-ones")
 			case 1:
 				target[15] |= 0x80
 				g.Stat("tweak.bit127")
+				tag("tweak.bit127")
 			case 2: // alternating top bits: carry, no carry, carry …
 				target[15] = 0xaa
 				target[14] = 0xaa
 				g.Stat("tweak.alternating")
+				tag("tweak.alternating")
 			}
 			copy(key[16:], forceKey(r, x, target))
 		}
 		g.Stat("ciph.toy")
+		if kl == 32 && ln%16 == 0 { // both arms of mul2's `if carryIn != 0`, counted on the harness's own toy + doubling
+			t := make([]byte, 16)
+			for j := 0; j < 8; j++ {
+				t[j] = byte(sector >> (8 * j))
+			}
+			k2, _ := newToy(key[16:])
+			k2.Encrypt(t, t)
+			for b := 0; b < ln/16; b++ {
+				if t[15]&0x80 != 0 {
+					g.Stat("branch.mul2.carry")
+				} else {
+					g.Stat("branch.mul2.no-carry")
+				}
+				var c byte
+				for j := range t {
+					o := t[j] >> 7
+					t[j] = t[j]<<1 + c
+					c = o
+				}
+				if c != 0 {
+					t[0] ^= 0x87
+				}
+			}
+		}
+		flushPairs(g)
 		g.Emit("xts ciph=toy key=%s sector=%d src=%s dstlen=%d off=%s", hx.Hex(key), sector, hx.Hex(src), dstlen, off)
 	}
 }
@@ -332,6 +427,17 @@ func exec(line string) string {
 	e := call(c.Encrypt, src, o.Int("dstlen"), o.Str("off"), sector, mut)
 	d := call(c.Decrypt, src, o.Int("dstlen"), o.Str("off"), sector, mut)
 	mut.add(kar.changed())
+	// the same Cipher value stays usable after a recovered panic (tweak array taken from the pool and not
+	// returned): a valid call afterwards must equal a fresh Cipher's answer
+	if e == "panic" || d == "panic" {
+		fresh, _ := xts.NewCipher(cf, o.Hex("key"))
+		a, b := make([]byte, 32), make([]byte, 32)
+		c.Encrypt(a, make([]byte, 32), sector)
+		fresh.Encrypt(b, make([]byte, 32), sector)
+		if !bytes.Equal(a, b) {
+			return "reuse-after-panic-fail"
+		}
+	}
 	// Decrypt(Encrypt(x)) = x on the real code, separate buffers
 	if strings.HasPrefix(e, "ok:") {
 		ct := hx.UnHex(e[3:])
